@@ -96,6 +96,9 @@ func newRun(e *Engine, fn *ssa.Function) *Run {
 	r.declKey("g|$closed", "(Array Int Bool)")
 	r.declKey("g|$panicking", "Int")
 	r.mem0["g|$panicking"] = "0"
+	// channels this function (the run's top function and what it inlines) has received from
+	r.declKey("g|$recvd", "(Array Int Bool)")
+	r.mem0["g|$recvd"] = "((as const (Array Int Bool)) false)"
 	for name, srt := range e.cs.Ghosts {
 		r.declKey("g|"+name, ghostSort(srt))
 	}
@@ -1290,8 +1293,8 @@ func (fr *Frame) enterLoop(h *ssa.BasicBlock, st *State) *State {
 	// --- havoc
 	hs := st.clone()
 	for _, k := range sortedKeys(modMem) {
-		if strings.HasPrefix(k, "d|") {
-			continue
+		if strings.HasPrefix(k, "d|") || k == "g|$recvd" {
+			continue // receives made inside a loop are forgotten at its head (under-approximation)
 		}
 		old := r.get(st, k)
 		r.havocKey(hs, k)
